@@ -1982,7 +1982,8 @@ def gen_C14_ev(rng):
 def gen_C15(rng):
     ctx = Ctx(rng)
     preamble(ctx, False, ranges=("bool",), nforests=rng.choice([1, 2]), maxpts=200)
-    fi = Forest("FI", ctx.doms[0], False, "int", "idx", "fr", rand_opts(rng))
+    fi = Forest("FI", ctx.doms[0], False, "int", "idx", "fr",
+                rand_opts(rng) if rng.random() < 0.5 else "del=pess")
     ctx.emit(fi.decl())
     n = 0
     for _ in range(rng.randint(2, 5)):
@@ -2002,6 +2003,16 @@ def gen_C15(rng):
         ctx.emit("card %s" % a)
         ctx.emit("getelem %s -2 %d" % (x, ctx.doms[0].npoints(False) + 1))
         ctx.emit("iter %s" % a)
+        if rng.random() < 0.5:
+            # the index set is released (its nodes may be reclaimed while the conversion's
+            # compute-table entry still exists) and the same set is converted again
+            ctx.emit("release %s" % x)
+            if rng.random() < 0.3:
+                gen_coll(ctx, rng.choice(ctx.forests), nmax=4)
+            y = "Y%d" % n
+            ctx.emit("unary %s FI index %s" % (y, a))
+            ctx.emit("getelem %s -1 %d" % (y, ctx.doms[0].npoints(False)))
+            ctx.emit("audit FI")
     return ctx.text()
 
 
